@@ -632,8 +632,13 @@ func checkUUIDAssign(p *Prog, r *Result, rule string) {
 						continue
 					}
 					bo, ok := ifi.Cond.(*ssa.BinOp)
-					if !ok || bo.Op != token.EQL {
+					if !ok || (bo.Op != token.EQL && bo.Op != token.NEQ) {
 						continue
+					}
+					// the edge on which the identifier is known to be empty: true edge of ==, false edge of !=
+					emptyEdge, otherEdge := gb.Succs[0], gb.Succs[1]
+					if bo.Op == token.NEQ {
+						emptyEdge, otherEdge = gb.Succs[1], gb.Succs[0]
 					}
 					isUUID := func(v ssa.Value) bool {
 						cc, ok := v.(*ssa.Call)
@@ -641,7 +646,7 @@ func checkUUIDAssign(p *Prog, r *Result, rule string) {
 					}
 					isEmpty := func(v ssa.Value) bool { s, ok := constString(v); return ok && s == "" }
 					if (isUUID(bo.X) && isEmpty(bo.Y)) || (isUUID(bo.Y) && isEmpty(bo.X)) {
-						if gb.Succs[0].Dominates(b) && !gb.Succs[1].Dominates(b) {
+						if (emptyEdge == b || emptyEdge.Dominates(b)) && !(otherEdge == b || otherEdge.Dominates(b)) && !blockReaches(otherEdge, b) {
 							guardOK = true
 						}
 					}
